@@ -17,6 +17,7 @@
 package sync
 
 import (
+	"errors"
 	"bufio"
 	"encoding/json"
 	"fmt"
@@ -83,8 +84,11 @@ func (vfsBabe) VerifyBlock(*types.Header) error { return nil }
 
 type vfsFinality struct{}
 
+// Justifications are attached only to entries of blocks that were delivered before (see below); they are not
+// verifiable, so a block that is processed with one is refused -- and a block the node already holds is not
+// processed at all ("never twice").
 func (vfsFinality) VerifyBlockJustification(common.Hash, uint, []byte) (uint64, uint64, error) {
-	return 1, 1, nil
+	return 0, 0, errors.New("harness: justification cannot be verified")
 }
 
 type vfsRuntime struct{ runtime.Instance }
@@ -187,12 +191,18 @@ scenarios:
 			counts["import-"+r]++
 		}}
 		write(vfsEvent{Ev: "reset", Sc: bi, Par: sc.Par})
+		redelivered := map[int]bool{} // blocks that appeared in an earlier batch of this scenario
+		var delivered []int
 		for si, raw := range sc.Steps {
 			var s vfsStep
 			if err := json.Unmarshal(raw, &s); err != nil {
 				t.Fatalf("VERIF-INFRA step json: %v", err)
 			}
 			var results []*SyncTaskResult
+			for _, x := range delivered {
+				redelivered[x] = true
+			}
+			delivered = delivered[:0]
 			for ri, r := range s.Batch {
 				data := make([]*types.BlockData, 0, len(r.Es))
 				for _, e := range r.Es {
@@ -213,7 +223,16 @@ scenarios:
 						hdr = types.NewHeader(data[len(data)-1].Hash, hdr.StateRoot, hdr.ExtrinsicsRoot, hdr.Number, hdr.Digest)
 						stated = hdr.Hash()
 					}
-					data = append(data, &types.BlockData{Hash: stated, Header: hdr, Body: &body})
+					bd := &types.BlockData{Hash: stated, Header: hdr, Body: &body}
+					// a block delivered again (another peer answering the same request, an overlapping range) may now carry the
+					// justification the first response lacked
+					if redelivered[e.B] && e.Rl != 1 && e.St == e.B && (e.B+si)%2 == 0 {
+						just := []byte{0xaa, byte(e.B)}
+						bd.Justification = &just
+						counts["entries-with-justification"]++
+					}
+					delivered = append(delivered, e.B)
+					data = append(data, bd)
 				}
 				dir := messages.Ascending
 				if r.Dir == "desc" {
